@@ -460,7 +460,9 @@ class C10(Check):
             'cross-thread, default app), inner handlers leaving through redirect() / abort() / a raised HTTPResponse with the '
             'default app outside and inside (also through a third application) while the outer handler reads its '
             'response before and after, idle request objects (construct / store through one idle request / inspect '
-            'all); single thread, and 2-3 threads under the baton scheduler with every single '
+            'all), one application mutating in place everything it is handed while others (same static route, same raw '
+            'inputs; default app, nested, app created mid-request, other thread, custom 799 phrase in both orders) read, '
+            'with an identity check of the handed-out objects; single thread, and 2-3 threads under the baton scheduler with every single '
             'preemption point of thread 1 plus random multi-preemption schedules; every application is compared with '
             'the run in which the others\' operations (and its own copies) are deleted, computed in a forked child of '
             'the untouched process; non-trivial = more than one application takes part')
